@@ -150,6 +150,10 @@ func runC15(args []string) {
 			seq = []any{pres[(idx/2)%len(pres)], step}
 			npre = 1
 		}
+		if (idx/7)%6 == 3 && nest == 0 && npre == 0 {
+			seq = []any{step, "wait", step} // the same row twice in one sequence: two steps, and - if unknown - two reports
+			npre = 2
+		}
 		var doc any = obj{"steps": seq}
 		top := idx%4 == 3
 		if ft := fl.str("top", ""); ft != "" {
@@ -164,7 +168,7 @@ func runC15(args []string) {
 			doc = orderedJSON([][2]any{{"zz_toplevel", obj{"a": 1}}, {"steps", doc.(obj)["steps"]}})
 		}
 		src := string(asciiJSON(doc))
-		ev := obj{"c": c, "nest": nest, "top": top, "npre": npre}
+		ev := obj{"c": c, "nest": nest, "top": top, "npre": npre, "nunk": 0, "nfb": 0}
 		// every fifth map-shaped row is not parsed from text but handed to the step decoder as an ordered map that has
 		// been EDITED through its API: a key of the command family was set first and deleted again. What decides
 		// is what the map holds, not what its storage remembers.
@@ -250,6 +254,8 @@ func runC15(args []string) {
 			if len(steps) > npre {
 				ev["kind"] = stepKind(steps[len(steps)-1])
 			}
+			// every step that fell back to an unknown step has a report of its own in the warning
+			ev["nunk"], ev["nfb"] = countUnknown(pl.Steps), countFallbacks(err)
 		})
 		ev["panic"] = p
 		if p {
@@ -266,7 +272,7 @@ func runC15(args []string) {
 		// F28: a plain YAML timestamp as the value of an ADDITIONAL typed key (label) of a command step
 		for _, pr := range [][2]string{{"F28-timestamp-in-typed-field", "steps:\n  - command: x\n    label: 2024-01-01\n"}} {
 			c := normalize(obj{"form": "map", "keys": []any{"command"}, "type": "<absent>", "extra": "label", "rot": 0})
-			ev := obj{"c": c, "nest": 0, "top": false, "npre": 0, "probe": pr[0], "warn": false, "hard": false, "sentinel": "none", "nsteps": 0, "kind": "none"}
+			ev := obj{"c": c, "nest": 0, "top": false, "npre": 0, "nunk": 0, "nfb": 0, "probe": pr[0], "warn": false, "hard": false, "sentinel": "none", "nsteps": 0, "kind": "none"}
 			p, msg := guarded(func() {
 				pl, err := pipeline.Parse(strings.NewReader(pr[1]))
 				ev["warn"], ev["hard"], ev["sentinel"] = warning.Is(err), err != nil && !warning.Is(err), sentinelOf(err)
